@@ -382,7 +382,24 @@ def _rescan_cases():
                    'items': _number(_with_probes_everywhere(placed, n)), 'act': {'ccd': None, 'tr': n % 3 == 2}}
 
 
+def _empty_set_cases():
+    """Exactly started with a minimal environment (one or two variables) that the case unsets completely, in the act
+    set, the non-act set or both: a set that has become EMPTY is an empty environment, not "no environment given"."""
+    n = 0
+    for initial in ({'VC': 'c0'}, {'VC': 'c0', 'VA': 'a0'}, {'VA': ''}):
+        for of in (None, 'act', '!act'):
+            for ph in ('setup', 'before-assert'):
+                if of == 'act' and ph != 'setup':
+                    continue
+                n += 1
+                placed = [(ph, i_unset(of, name)) for name in sorted(initial)]
+                yield {'kind': 'empty-set', 'n': n, 'mode': 'normal', 'initial': dict(initial), 'minimal_env': True,
+                       'items': _number(_with_probes_everywhere(placed, n)), 'act': {'ccd': None, 'tr': n % 2 == 0}}
+
+
 def cases(tier, seed):
+    for c in _empty_set_cases():
+        yield c
     for c in _core_cases():
         yield c
     for c in _rescan_cases():
@@ -629,6 +646,10 @@ def run_case(case, ctx):
     with open(os.path.join(d, 't.case'), 'w', encoding='utf-8', newline='') as f:
         f.write(text)
     saved = {n: os.environ.get(n) for n in RECORDED}
+    whole = dict(os.environ) if case.get('minimal_env') else None
+    if whole is not None:
+        os.environ.clear()  # Exactly is "started" with nothing but the variables of case['initial']
+        ctx.count('c11.minimal_environment_runs')
     for n in RECORDED:
         os.environ.pop(n, None)
     os.environ.update(case['initial'])
@@ -636,6 +657,9 @@ def run_case(case, ctx):
         r = ses.run((['--keep'] if case['mode'] == 'keep' else []) + [os.path.join(d, 't.case')], cwd=d,
                     mode=case['mode'])
     finally:
+        if whole is not None:
+            os.environ.clear()
+            os.environ.update(whole)
         for n, v in saved.items():
             if v is None:
                 os.environ.pop(n, None)
